@@ -152,6 +152,13 @@ def run(prop: str, tier_: str) -> int:
             vecs = drm_vectors(tier_, rng)
             tid = 0
             if prop == 'C03':
+                # a text track stored without tfdt boxes, with an explicit tfhd base_data_offset and a trun without
+                # data_offset (tests/fixtures/webvtt.mp4): the handler has to insert the tfdt itself
+                from harness.core import REPO
+                da.add_fixture('bbb', directory='vtt', title='stored without tfdt', only={'bbb_v7', 'bbb_a1'},
+                               extra=[(REPO / 'tests' / 'fixtures' / 'webvtt.mp4', 'vtt_t2')])
+                reps = reps + [('vtt', 'vtt_t2', 'mp4', 0)]
+            if prop == 'C03':
                 extras = ['', '&events=ping&ping__interval=100&ping__timescale=100', '&events=ping,scte35&ping__interval=150&ping__count=0',
                           '&events=scte35&scte35__interval=300', '&bugs=saio', '&bugs=saio&events=ping&ping__interval=90',
                           '&events=ping&ping__interval=4000&ping__start=100000']
